@@ -1,17 +1,10 @@
 import WindVerif.Spec.Pool
 import WindVerif.Proofs.PoolLifeAux3
-/-! Liveness of the pool model (C02): the blocking exit outside `ExitCap` (D19), by an explicit schedule. -/
+/-! Liveness of the pool model (C02): the schedule of the former finding D19 (a factory pool whose workers retired
+unreplaced, work-queue bound below the number of workers) — with the repaired `__exit__` it runs on to `done`. -/
 namespace WindVerif.Pool
 
-/-- a worker step needs a worker that is neither unstarted nor gone -/
-theorem stepW_none_of_all_exited {s : St} (h : ∀ w ∈ s.workers, w.pc = .exited) (wid : Nat) : stepW s wid = none := by
-  unfold stepW
-  split
-  · rfl
-  · rename_i w hg
-    rw [h w (getWorker_some hg).1]
-
-/-- the configuration of D19 (the same as `d19Cfg` of `PoolLive`) -/
+/-- the configuration of the former D19 (the same as `d19Cfg` of `PoolLive`) -/
 def d19CfgAux : Cfg :=
   { nWorkers := 2, workCap := some 1, resCap := none, factory := true, quota := some 1, waitReady := false,
     calls := [⟨2, true⟩], beginFault := [], itemFault := [] }
@@ -19,25 +12,17 @@ def d19CfgAux : Cfg :=
 /-- the consumer starts both workers and the call; the feeder sends both chunks (queue bound 1: worker 0 takes the first
 in between); both workers deliver and stand at `retire`; the consumer drains the results, leaves the loop and stops and
 joins the replace thread; only then the two workers post their ids and exit, unreplaced; the first stop order of
-`__exit__` fills the work queue, the second blocks. -/
+`__exit__` fills the work queue, the second `put` finds it full; D19 repaired: every listed worker has an exit code, so the
+loop of stop orders is left and the caller is done (the last `.c`; before the repair nobody could move here). -/
 def d19Sched : List Tid :=
   [.c, .c, .c, .c, .c, .c, .c, .c, .w 0, .w 0, .w 1, .w 1, .f, .f, .f, .f, .f, .w 0, .f, .f, .f, .f, .f, .f, .f, .w 1,
    .w 0, .w 0, .w 0, .w 1, .w 1, .w 1,
-   .c, .c, .c, .c, .c, .c, .c, .c, .c, .c, .c, .c, .c, .c, .c, .c, .c, .c, .r, .c, .w 0, .w 1, .c, .c]
+   .c, .c, .c, .c, .c, .c, .c, .c, .c, .c, .c, .c, .c, .c, .c, .c, .c, .c, .r, .c, .w 0, .w 1, .c, .c, .c]
 
 theorem d19_run_some : (run (init d19CfgAux) d19Sched).isSome = true := by decide +kernel
 
-theorem exit_can_block_aux :
-    ∃ sched s, run (init d19CfgAux) sched = some s ∧ s.cpc ≠ .done ∧ ∀ t, step s t = none := by
-  refine ⟨d19Sched, (run (init d19CfgAux) d19Sched).get d19_run_some, (Option.some_get _).symm, ?_, ?_⟩
-  · decide +kernel
-  · have hall : ∀ w ∈ ((run (init d19CfgAux) d19Sched).get d19_run_some).workers, w.pc = .exited := by
-      decide +kernel
-    intro t
-    cases t with
-    | c => decide +kernel
-    | f => decide +kernel
-    | r => decide +kernel
-    | w wid => exact stepW_none_of_all_exited hall wid
+theorem exit_unblocked_aux : ∃ sched s, run (init d19CfgAux) sched = some s ∧ s.cpc = .done := by
+  refine ⟨d19Sched, (run (init d19CfgAux) d19Sched).get d19_run_some, (Option.some_get _).symm, ?_⟩
+  decide +kernel
 
 end WindVerif.Pool
